@@ -354,7 +354,10 @@ class GscTap(GlobalStopCondition):
         f = sys._getframe(1)
         name = f.f_code.co_name
         s = f.f_locals.get("self")
-        if name == "run" and isinstance(s, DemeTree):
+        if w.manual_boundary:
+            # the harness drives the tree with its own `while not gsc(tree): tree.run_step()` loop
+            site, deme = "boundary", None
+        elif name == "run" and isinstance(s, DemeTree):
             site, deme = "boundary", None
         elif name == "run_step" and isinstance(s, DemeTree):
             site, deme = "presprout", None
@@ -635,6 +638,7 @@ class World:
         self.caps = plan.get("caps", {})
         self.seq = 0
         self.in_monitor = 0
+        self.manual_boundary = False
         self.shadow = False  # a monitor is stepping a detached copy of the tree: nothing is announced or recorded
         self.tree = None
         self.tree_ready = False
